@@ -52,7 +52,8 @@ func (a Attack) String() string {
 var forgeries = []string{"flag-cleared-trailer-kept", "flag-cleared-no-trailer", "authcode-empty", "authcode-short", "authcode-random", "authcode-k2", "authcode-sik", "authcode-zero-key",
 	"authcode-other-session", "authcode-range-skips-first-byte", "authcode-range-includes-rmcp", "authcode-range-excludes-trailer", "wrong-session-id", "plaintext-unsigned",
 	"plaintext-unsigned-wrong-id", "flag-set-no-trailer", "flag-set-ff-only", "plaintext-flag-set-no-trailer", "plaintext-flag-set-ff-only", "pad-bytes-wrong", "pad-length-large", "pad-longer-than-data",
-	"addressed-to-bmc-session-id", "addressed-to-null-session", "addressed-to-byteswapped-id"}
+	"addressed-to-bmc-session-id", "addressed-to-null-session", "addressed-to-byteswapped-id",
+	"pad-two-bytes-swapped", "pad-reversed", "pad-zero-filled", "pad-same-bit-in-two-bytes"}
 
 // commands with a response body whose value the forger changes
 var cmdNames = []string{"GetSystemGUID", "GetDeviceID", "GetChannelAuthenticationCapabilities"}
@@ -174,6 +175,39 @@ func attackDatagram(a Attack, R []byte, s *simbmc.Session, b *simbmc.BMC, other 
 	case "plaintext-unsigned-wrong-id":
 		p.enc, p.auth, p.trailer, p.payload = false, false, false, forged
 		p.sid = s.ConsoleID + 1 + uint32(a.Param)
+	case "pad-two-bytes-swapped", "pad-reversed", "pad-zero-filled", "pad-same-bit-in-two-bytes":
+		// pads that are wrong in several positions at once (the errors of any two
+		// positions may cancel in a sloppy comparison); the pad length byte is right
+		n := 15 - len(forged)%16
+		if n < 2 {
+			n += 16 // not minimal, and wrong as well
+		}
+		pad := make([]byte, n)
+		for i := range pad {
+			pad[i] = byte(i + 1)
+		}
+		i, j := a.Param%n, (a.Param/n+a.Param%n+1)%n
+		if i == j {
+			j = (i + 1) % n
+		}
+		switch a.Forge {
+		case "pad-two-bytes-swapped":
+			pad[i], pad[j] = pad[j], pad[i]
+		case "pad-reversed":
+			for l, r := 0, n-1; l < r; l, r = l+1, r-1 {
+				pad[l], pad[r] = pad[r], pad[l]
+			}
+		case "pad-zero-filled":
+			for k := range pad {
+				pad[k] = 0
+			}
+		case "pad-same-bit-in-two-bytes":
+			bit := byte(1) << uint(a.Param%8)
+			pad[i] ^= bit
+			pad[j] ^= bit
+		}
+		pt := append(append(append([]byte(nil), forged...), pad...), byte(n))
+		p.payload = ref.AESEncryptRaw(s.K2, iv, pt)
 	case "pad-bytes-wrong", "pad-length-large", "pad-longer-than-data":
 		n := 15 - len(forged)%16
 		pt := append([]byte(nil), forged...)
